@@ -385,4 +385,58 @@ def rule_h(ctx: Ctx) -> None:
     ctx.explain('C08.h: sibling agreement of the five XsdType predicates on `self.is_derived(self.maps.types[<builtin>])`.')
 
 
-RULES = [rule_a, rule_b, rule_c, rule_d, rule_e, rule_f, rule_g, rule_h]
+def rule_i(ctx: Ctx) -> None:
+    """Save/restore pairs on the validation context hit the same object.  `saved = context.A; context.A = new … context.A = saved`
+    restores the caller's state only while the name `context` still denotes the caller's object: if `context` is rebound to a copy in
+    between, the restore lands on the copy and the caller keeps the callee's value (for A = id_list: the xs:ID list of a child)."""
+    rule = 'C08.i'
+    n = 0
+    for f in ctx.idx.iter_functions('validators'):
+        if isinstance(f.node, ast.Lambda) or 'context' not in f.params:
+            continue
+        saves = {}
+        for x in walk_no_nested(f.node):
+            if isinstance(x, ast.Assign) and len(x.targets) == 1 and isinstance(x.targets[0], ast.Name) and isinstance(x.value, ast.Attribute) \
+                    and text(x.value.value) == 'context':
+                saves.setdefault((x.targets[0].id, x.value.attr), []).append(x)
+        if not saves:
+            continue
+        g = None
+        for (var, attr), ss in saves.items():
+            restores = [x for x in walk_no_nested(f.node) if isinstance(x, ast.Assign) and len(x.targets) == 1 and text(x.targets[0]) == f'context.{attr}'
+                        and isinstance(x.value, ast.Name) and x.value.id == var]
+            swaps = [x for x in walk_no_nested(f.node) if isinstance(x, ast.Assign) and len(x.targets) == 1 and text(x.targets[0]) == f'context.{attr}'
+                     and not (isinstance(x.value, ast.Name) and x.value.id == var)]
+            if not restores or not swaps:
+                continue
+            if g is None:
+                g = cfg_of(ctx, f)
+                rd = g.reaching_defs(kinds='nTF')
+            ctx.analysed(f.qualname)
+            for r in restores:
+                n += 1
+                rn = g.nodes_of(r)[0]
+                sn = g.nodes_of(ss[0])[0]
+                before, after = rd[sn].get('context', set()), rd[rn].get('context', set())
+                extra = [d for d in after - before if d.ast is not None]
+                ok = True
+                det = ''
+                for d in extra:
+                    # the rebinding is fine when the old object is restored through another name bound to it just before
+                    olds = [x for x in walk_no_nested(f.node) if isinstance(x, ast.Assign) and len(x.targets) == 1 and isinstance(x.targets[0], ast.Name)
+                            and isinstance(x.value, ast.Name) and x.value.id == 'context' and x.lineno < d.lineno]
+                    fixed = any(isinstance(y, ast.Assign) and len(y.targets) == 1 and text(y.targets[0]) == f'{o.targets[0].id}.{attr}' and isinstance(y.value, ast.Name)
+                                and y.value.id == var for o in olds for y in walk_no_nested(f.node))
+                    if not fixed:
+                        ok = False
+                        det = (f'`context` is rebound at line {d.lineno} (`{text(d.ast)[:40]}`) between `{var} = context.{attr}` (line {ss[0].lineno}) and the restore: the saved value is '
+                               f'written to the copy and the caller keeps the callee\'s {attr} - XSD 1.1: <e id="a" inh="x"/> with an inheritable attribute followed by a sibling '
+                               '<g>a</g> of type xs:ID: the duplicate is not reported')
+                ctx.ob(rule, f'{f.qualname.split(".", 2)[-1]}: `context.{attr} = {var}` (line {r.lineno}) restores the object that was saved from', f.loc(r), ok, det,
+                       key=f'{f.qualname}|save-restore|{attr}|{var}')
+    ctx.floor(rule, 'save/restore pairs on the validation context', n, 2)
+    ctx.explain('C08.i: reaching definitions of the name `context` at the save and at the restore of every `v = context.A … context.A = v` pair; a rebinding in between must '
+                'be compensated by a restore through an alias of the old object.')
+
+
+RULES = [rule_a, rule_b, rule_c, rule_d, rule_e, rule_f, rule_g, rule_h, rule_i]
